@@ -140,7 +140,7 @@ def _strategy(draw):
     spec["build"] = build or None
     spec["user_templates"] = templates
     edge = gc.dilute_box(spec)
-    opts = {"box": [edge, edge, edge], "bfudge": draw(st.sampled_from([0.2, 0.4, 0.7, 1.0]))}
+    opts = {"box": [edge, edge, edge], "bfudge": draw(st.sampled_from([0.2, 0.4, 0.7, 1.0, 1.0, 0.0]))}
     spec["opts"] = opts
     if draw(st.integers(0, 3)) == 0:
         spec["coords"] = draw(c03.supplied_coords(spec, opts["box"], mode="mc",
@@ -212,6 +212,12 @@ def check(spec, ctx):
             if np.max(np.abs(P.mean(axis=0) - centre)) > 1e-8:
                 raise Violation("centre_of_geometry", f"residue ({mi},{node}) {attrs['resname']}: atoms centre "
                                                       f"{P.mean(axis=0)} residue position {centre}")
+            if fudge == 0:
+                # factor 0: every atom sits on the residue position
+                if np.max(np.abs(P - centre)) > 1e-9:
+                    raise Violation("not_congruent", f"residue ({mi},{node}): backmapping factor 0 but atoms up to "
+                                                     f"{np.max(np.abs(P - centre)):.4f} nm from the residue position")
+                continue
             X = (P - centre) / fudge
             # distances first (catches scaling), then the proper rotation
             for i, j in itertools.combinations(range(len(atoms)), 2):
